@@ -171,6 +171,15 @@ func (env *SpecEnv) eval(x ast.Expr) Val {
 				if path := env.e.W.resolvePkgName(env.pkg, id.Name); path != "" && env.pkgHas(path, n.Sel.Name) {
 					return env.pkgMember(path, n.Sel.Name)
 				}
+				// several imported packages may share a name (tracer/stats and internal/stats): take the direct
+				// import of that name which has the member
+				if env.pkg != nil {
+					for _, imp := range env.pkg.Imports() {
+						if imp.Name() == id.Name && env.pkgHas(imp.Path(), n.Sel.Name) {
+							return env.pkgMember(imp.Path(), n.Sel.Name)
+						}
+					}
+				}
 			}
 		}
 		base := env.eval(n.X)
